@@ -179,7 +179,11 @@ func runPrio(c *Ctx) {
 	// one fresh copy per parameter: the Copy is made in the iteration that selects the current parameter
 	perParam := false
 	if onCopy && current != nil {
-		if ci, ok := current.(ssa.Instruction); ok {
+		cur := current
+		if prm, isPrm := cur.(*ssa.Parameter); isPrm {
+			cur = p.Bind(prm) // the discounting step is a private helper that is handed the current parameter
+		}
+		if ci, ok := cur.(ssa.Instruction); ok {
 			// the copy (or the one call of the helper that makes it) lies inside the iteration that selects the parameter
 			as, _ := p.Anchors(cpCall, ci.Parent())
 			if len(as) == 1 {
